@@ -1,0 +1,10 @@
+//go:build verif
+
+package jobconfigcontroller
+
+import "k8s.io/client-go/util/workqueue"
+
+// VerifSetQueue replaces the workqueue of the controller context.
+func (c *Context) VerifSetQueue(queue workqueue.RateLimitingInterface) {
+	c.queue = queue
+}
